@@ -64,6 +64,16 @@ def draw_spec(rng, tier="quick"):
             if o in ovs or gen.rc(o) in ovs or gen.rc(o) == o:
                 continue
             ovs.append(o)
+        # the overhang the chain ends with (the vector's upstream one) is no module's start: it may be the reverse
+        # complement of one (also of the vector's other overhang), or a palindrome
+        rel = rng.random()
+        if rel < 0.25:
+            ovs[chain] = gen.rc(ovs[rng.randrange(chain)])
+        elif rel < 0.35 and k % 2 == 0:
+            half = ba.clean(rng, k // 2, e)
+            pal = half + gen.rc(half)
+            if pal not in ovs and site.upper() not in pal.upper():
+                ovs[chain] = pal
         word = rng.choice([site, gen.rc(site)])
         if scar:
             ovs[1] = word[1:-1]
@@ -146,6 +156,10 @@ def _features_for(p, k, rng):
         cand.append(("in-join-mixed", [rel(0, 2, 1), rel(3, 2, -1)], "gene"))
         cand.append(("half-join", [rel(1, 2), rel(L + 1, 2)], "misc_feature"))
         cand.append(("in-source-typed", [rel(1, 3)], "source"))
+        # features spanning exactly the retained stretch, also source-typed ones (what the generated provenance feature spans)
+        cand.append(("whole-source-typed", [rel(0, L)], "source"))
+        cand.append(("whole-source-typed-rev", [rel(0, L, -1)], "source"))
+        cand.append(("whole-join", [rel(0, 2), rel(2, L - 2)], "source" if rng.random() < 0.5 else "misc_feature"))
     picked = [c for c in cand if rng.random() < 0.55]
     return picked
 
@@ -512,10 +526,24 @@ def sweep(ctx, ns, which, count=None):
                 if a_ and not b_:
                     pb.append("inherited features differ from those of the unrotated inputs: %s" % a_[0])
         else:
+            pre = []
+            if which == "citations" and t % 3 == 0 and len(sc.mods) >= 2:
+                # history: an earlier call with the same wrappers that FAILS (one module of the chain left out), then
+                # the call under test: the inputs' own citation texts are what they were, the product is the same
+                evals += 1
+                cit_of = lambda: [[[c_ if isinstance(c_, str) else "<%s object>" % type(c_).__name__ for c_ in f.qualifiers.get("citation", [])]
+                                   for f in x.record.features] for x in sc.ents]
+                before = cit_of()
+                gf, pf, _ = ba.run_assembly(sc.vec, [m_ for m_ in sc.supplied if m_ is not sc.mods[-1]])
+                if gf[0] == "product":
+                    pre.append("an assembly without the last module of the chain gave a product")
+                elif cit_of() != before:
+                    pre.append("after a failing assembly (%s) the inputs' citation qualifiers changed: %r -> %r" % (
+                        gf[0], [c_ for x_ in before for c_ in x_ if c_][:3], [c_ for x_ in cit_of() for c_ in x_ if c_][:3]))
             got, prod, w = sc.run()
             evals += 1
             fn = dict(sequence=oracle_sequence, features=oracle_features, provenance=oracle_provenance, citations=oracle_citations)[which]
-            pb = fn(sc, got, prod)
+            pb = pre + fn(sc, got, prod)
             if which == "features" and not pb and got[0] == "product" and sc.expected_feats:
                 # edit between two calls with the same wrappers: a feature of an input is relabelled (and one removed);
                 # the second product must show the records as they are *now*
